@@ -910,6 +910,38 @@ def main():
     stats = {}
     runner = HistoryRunner(chk, impl)
 
+    # ---- 0a. the expiry boundary, in fractions of a second: a light unseen for EXACTLY the
+    # configured age stays, one unseen for any time longer than that — a quarter of a second
+    # longer is longer — goes, with its memberships
+    stats['expiry_boundary_cases'] = 0
+    for max_age in (20, 300, 1200):
+        for extra, goes in ((-0.5, False), (0.0, False), (0.25, True), (0.5, True), (0.75, True), (1.0, True),
+                            (1.5, True)):
+            impl.fresh()
+            impl.apply(('D', [('stays', 'g1', 'l1'), ('porch', 'g2', 'l2')]))
+            # an eighth of a second before the expiry a discovery sees the other light again
+            impl.net.clock.now += max_age + extra - 0.125
+            impl.apply(('D', [('stays', 'g1', 'l1')]))
+            impl.net.clock.now += 0.125
+            impl._expire_setting(max_age)
+            impl.ls._garbage_collect()
+            chk.count()
+            stats['expiry_boundary_cases'] += 1
+            listed = 'porch' in list(impl.ls.get_light_names())
+            g2 = 'g2' in list(impl.ls.get_group_names())
+            if listed == goes or g2 == goes or ('stays' not in list(impl.ls.get_light_names())):
+                chk.violation('expiry-boundary-wrong',
+                              'light_gc_time {}: a light unseen for {} s is {} after expiry (group g2 {}); '
+                              '"longer than the configured age" means it {}'.format(
+                                  max_age, max_age + extra, 'still listed' if listed else 'removed',
+                                  'listed' if g2 else 'not listed', 'goes' if goes else 'stays'),
+                              {'history': [['D', [['stays', 'g1', 'l1'], ['porch', 'g2', 'l2']]],
+                                           ['A', max_age + extra], ['E', max_age]],
+                               'note': 'harness/c13.py section 0a'})
+            else:
+                chk.nontrivial_case(('boundary', max_age, extra))
+    impl.fresh()
+
     # ---- 0. the corpus: minimised past findings, replayed first
     corpus_dir = os.path.join(ROOT, 'corpus', 'C13')
     n_corpus = 0
